@@ -54,6 +54,10 @@ def impl(case):
         safe("commutants", lambda: [str(s) for s in c.get_commutants()])
     safe("agraph", lambda: (lambda v, e, l: {"v": list(v), "e": [[a, b, l.get((a, b))] for a, b in e]})(*c.get_graph()))
     safe("subgraphs", lambda: sorted(sorted(str(s) for s in sub) for sub in c.get_subgraphs()))
+    # get_graph_components(): default = 'anticommutator' = the same components; anything else but 'commutator' is refused
+    safe("acomps_default", lambda: sorted(sorted(str(s) for s in sub) for sub in c.get_graph_components()))
+    safe("acomps_named", lambda: sorted(sorted(str(s) for s in sub) for sub in c.get_graph_components("anticommutator")))
+    safe("comps_bad_type", lambda: c.get_graph_components("anticommutation") and "accepted")
     safe("pair", lambda: c.get_pair())
     safe("apair", lambda: c.get_anticommutation_pair())
     safe("fraction", lambda: c.get_anticommutation_fraction())
@@ -112,6 +116,10 @@ def main():
         want_sub = sorted(sorted(c.split()) for c in ac.split(";") if c)
         if r["subgraphs"] != want_sub:
             bad.append("components: implementation %s, model %s" % (r["subgraphs"], want_sub))
+        if p and (r.get("acomps_default") != want_sub or r.get("acomps_named") != want_sub):
+            bad.append("get_graph_components() / ('anticommutator'): %s / %s, components of the anticommutation graph %s" % (r.get("acomps_default"), r.get("acomps_named"), want_sub))
+        if p and r.get("comps_bad_type") != "!ValueError":
+            bad.append("get_graph_components('anticommutation') is not refused: %s" % r.get("comps_bad_type"))
         m = len(p)
         if r["pair"] != m * (m - 1) // 2 or r["apair"] != len(want_edges):
             bad.append("pair counts: %s / %s, expected %d / %d" % (r["pair"], r["apair"], m * (m - 1) // 2, len(want_edges)))
